@@ -1,5 +1,5 @@
 (* C13 — concurrent_priority_queue.  Property theorems only; proofs live in CpqProofs.v. *)
-From OTV Require Import Lib.Tac CpqModel CpqProofs.
+From OTV Require Import Lib.Tac CpqModel CpqProofs CpqHeap CpqLin.
 From Coq Require Import Permutation.
 Local Open Scope nat_scope.
 
@@ -46,3 +46,35 @@ Example batch_example :
   = (mk [] 0, [(0, RFail); (5, RPop 3%Z); (6, RPop 5%Z); (7, RPop 9%Z); (4, RPop 100%Z);
                (3, RPop 10%Z); (2, RPush); (1, RPush)]) /\ wf (mk [9; 5; 3]%Z 3).
 Proof. split; [vm_compute; reflexivity | unfold wf; cbn; lia]. Qed.
+
+(* Heap order / linearization inside a batch.  `good q`: no unheapified tail and data is a binary max-heap.
+   `spec_run A h A'`: h is a legal history of a sequential priority queue from contents A to contents A' (multisets):
+   a push adds its element, a successful pop returns an element that is >= every element present and removes one copy of it,
+   a pop fails only on empty contents.  All operations of a batch are pending together, so any order of them respects real time:
+   for every batch there IS an order (`lin`, a permutation of the batch's operations paired with the answers they were given)
+   that is such a legal history from the contents before the batch to the contents after it, and the heap order is restored. *)
+Theorem batch_is_a_priority_queue_history : forall q batch q' rs,
+  handle_operations q batch = (q', rs) -> good q ->
+  good q' /\ exists lin, Permutation lin (ops_of batch rs) /\ spec_run (data q) lin (data q').
+Proof. exact batch_linearizable_proof. Qed.
+Print Assumptions batch_is_a_priority_queue_history.
+
+(* ... hence for any sequence of batches starting from the empty queue, the concatenation of those per-batch orders is one
+   legal sequential history of everything the queue ever answered. *)
+Theorem all_batches_form_a_priority_queue_history : forall bs q' hs,
+  run_model (mk [] 0) bs = (q', hs) ->
+  good q' /\ exists lins, Forall2 (@Permutation _) lins hs /\ spec_run [] (concat lins) (data q').
+Proof. intros bs q' hs H. exact (batches_linearizable_proof bs _ q' hs H good_empty). Qed.
+Print Assumptions all_batches_form_a_priority_queue_history.
+
+(* the root of the heap part is a maximum of it (what a heap pop returns) *)
+Theorem heap_root_is_maximum : forall d m i, hp d m -> i < m -> (get d i <= get d 0)%Z.
+Proof. intros d m i H Hi. exact (hp_root_max d m H i Hi). Qed.
+Print Assumptions heap_root_is_maximum.
+
+Example good_example : good (mk [9; 5; 3]%Z 3) /\
+  fst (run_model (mk [] 0) [[Push 3; Push 9; Push 5]; [Pop; Push 100; Push 10; Pop; Pop]]%Z) = mk [5; 3]%Z 2.
+Proof.
+  split; [split; [reflexivity|]|vm_compute; reflexivity].
+  intros i Hi. cbn in Hi. assert (i = 1 \/ i = 2) as [->| ->] by lia; vm_compute; discriminate.
+Qed.
